@@ -412,6 +412,112 @@ func rotation(rep *kit.Report, root string) {
 	}
 }
 
+// reloads: access logs written to a file, to the standard streams and to the default stream, over sequences of
+// requests, reloads (the new instance is started, then the old one is shut down, as Instance.Restart does) and failed
+// reloads (the new configuration is refused; whatever it had set up is shut down, the old instance stays). Every
+// request served by the instance that is current is logged exactly once at the destination, whatever preceded it.
+// The process's stdout and stderr are regular files for the duration of the phase.
+func reloads(rep *kit.Report, root string) {
+	type rcase struct {
+		Casketfile string   `json:"casketfile"`
+		Sequence   []string `json:"sequence"`
+		Step       int      `json:"step"`
+		Lines      int      `json:"lines"`
+	}
+	dir := filepath.Join(root, "rl")
+	os.MkdirAll(dir, 0o755)
+	outF, _ := os.Create(filepath.Join(dir, "stdout"))
+	errF, _ := os.Create(filepath.Join(dir, "stderr"))
+	realOut, realErr := os.Stdout, os.Stderr
+	os.Stdout, os.Stderr = outF, errF
+	var broken string
+	type pending struct {
+		sig, what string
+		c         rcase
+	}
+	var vios []pending
+	layouts := []struct{ name, directives, dest string }{
+		{"file", "log / " + filepath.Join(dir, "f.log") + " \"{uri}\"", filepath.Join(dir, "f.log")},
+		{"stdout", "log / stdout \"{uri}\"", outF.Name()},
+		{"stderr", "log / stderr \"{uri}\"", errF.Name()},
+		{"default-stream", "log / \"\" \"{uri}\"", errF.Name()},
+		{"stderr+errors", "errors\n\tlog / stderr \"{uri}\"", errF.Name()},
+		{"stdout+errors-stdout", "errors stdout\n\tlog / stdout \"{uri}\"", outF.Name()},
+		{"stderr+errors-visible", "errors visible\n\tlog / stderr \"{uri}\"", errF.Name()},
+		{"two-logs-one-stream", "log /a stderr \"{uri}\"\n\tlog /b stderr \"{uri}\"", errF.Name()},
+	}
+	ops := []string{"request", "reload", "failed-reload-setup", "failed-reload-startup"}
+	depth := 4
+	n := 0
+	for li, lay := range layouts {
+		cf := "a.test:8080 {\n\t" + lay.directives + "\n\tstatus 204 /\n}\n"
+		// refused while its directives are set up (after the log directive's turn) / refused by a start-up callback
+		// that runs after the log's own (a second log whose file cannot be created: its directory is a regular file)
+		bad := map[string]string{
+			"failed-reload-setup":   "a.test:8080 {\n\t" + lay.directives + "\n\tstatus 204 /\n\tbasicauth onlyone\n}\n",
+			"failed-reload-startup": "a.test:8080 {\n\t" + lay.directives + "\n\tlog /zz " + filepath.Join(outF.Name(), "x.log") + "\n\tstatus 204 /\n}\n",
+		}
+		total := 1
+		for i := 0; i < depth; i++ {
+			total *= len(ops)
+		}
+		for code := 0; code < total && broken == ""; code++ {
+			seq := make([]string, depth+1)
+			c := code
+			for i := 0; i < depth; i++ {
+				seq[i] = ops[c%len(ops)]
+				c /= len(ops)
+			}
+			seq[depth] = "request"
+			cur, err := kit.Load(cf, filepath.Join(dir, "Casketfile"))
+			if err != nil {
+				broken = fmt.Sprintf("reloads: load: %v\n%s", err, cf)
+				break
+			}
+			for step, op := range seq {
+				switch op {
+				case "request":
+					n++
+					tok := fmt.Sprintf("/a/R-%d-%d-%d-%d-", li, code, step, n)
+					kit.Serve(cur.Server(""), kit.Get("GET", tok, "a.test:8080"))
+					rep.Eval(1)
+					b, _ := os.ReadFile(lay.dest)
+					if k := strings.Count(string(b), tok); k != 1 {
+						vios = append(vios, pending{"C20/reloads/line-count/" + lay.name, fmt.Sprintf("layout %s, sequence %v: the request of step %d has %d lines at the destination, want exactly one", lay.name, seq, step, k), rcase{cf, seq, step, k}})
+					}
+				case "reload":
+					next, err := kit.Load(cf, filepath.Join(dir, "Casketfile"))
+					if err != nil {
+						broken = fmt.Sprintf("reloads: reload: %v\n%s", err, cf)
+						break
+					}
+					cur.Close()
+					cur = next
+				default:
+					if l2, err := kit.Load(bad[op], filepath.Join(dir, "Casketfile")); err == nil {
+						l2.Close()
+						broken = "reloads: the configuration meant to be refused was accepted\n" + bad[op]
+					}
+				}
+				if broken != "" {
+					break
+				}
+			}
+			cur.Close()
+		}
+		rep.Class("reloads/" + lay.name)
+	}
+	os.Stdout, os.Stderr = realOut, realErr
+	outF.Close()
+	errF.Close()
+	if broken != "" {
+		rep.Broken("%s", broken)
+	}
+	for _, v := range vios {
+		rep.Violation(v.sig, v.what, v.c)
+	}
+}
+
 // caseSensitive: in case-sensitive path mode (CASE_SENSITIVE_PATH=1) a scope or an exception written /status does not
 // cover /Status: such a request is logged exactly once, and the excepted spelling is not.
 func caseSensitive(rep *kit.Report, root string) {
@@ -442,7 +548,7 @@ func caseSensitive(rep *kit.Report, root string) {
 
 func main() {
 	rep := kit.NewReport("C20", "exploration",
-		"logging: 7 log layouts (one, two same-scope, two same-scope around another scope, disjoint scopes, except, except on the first of two, nested scopes) x every subset of size <=2 of 11 wrapping directives x 18 inner behaviours x 13 paths x GET/POST x Accept-Encoding, new lines of every log file counted after every request and {status}/{size} compared with what the strict writer saw; rotation: two sites sharing one rolling file under 4 spellings of its name, every line counted over the file and its backups, lines after a rotation looked for in the current file; placeholders: every format of 3 atoms over 20 atoms (vocabulary, header/cookie/query/env lookups, unknown, escaped braces, text) x 9x9 request-supplied values containing placeholder syntax, against a single-pass reference; distinct_nontrivial = outcome classes")
+		"logging: 7 log layouts (one, two same-scope, two same-scope around another scope, disjoint scopes, except, except on the first of two, nested scopes) x every subset of size <=2 of 11 wrapping directives x 18 inner behaviours x 13 paths x GET/POST x Accept-Encoding, new lines of every log file counted after every request and {status}/{size} compared with what the strict writer saw; rotation: two sites sharing one rolling file under 4 spellings of its name, every line counted over the file and its backups, lines after a rotation looked for in the current file; placeholders: every format of 3 atoms over 20 atoms (vocabulary, header/cookie/query/env lookups, unknown, escaped braces, text) x 9x9 request-supplied values containing placeholder syntax, against a single-pass reference; reloads: 8 layouts writing to a file, stdout, stderr or the default stream (alone, two logs on one stream, next to an errors log on the same stream) x every sequence of 4 steps over {request, reload, reload refused at set-up, reload refused at start-up} followed by a request, every request's line counted at the destination; distinct_nontrivial = outcome classes")
 	kit.Init()
 	kit.RegisterProbe()
 	kit.Log.Off.Store(true)
@@ -454,6 +560,7 @@ func main() {
 	placeholders(rep)
 	rotation(rep, root)
 	caseSensitive(rep, root)
+	reloads(rep, root)
 	os.RemoveAll(root)
 	rep.Finish()
 }
